@@ -168,6 +168,128 @@ func (w *world) forced(bulk, writer string) string {
 	return "done"
 }
 
+// overlap is a directed two-goroutine scenario: a single-element call on x overlapping a Replace of a large set in
+// which x is a member before and after (x is re-added last, so the window in which the set is cleared but x not yet back
+// lasts n insertions).  The single caller waits until it has seen the set shrink (Size() takes no applyMutex: the
+// transient state of a Replace in progress is visible to it) and only then calls Delete(x) / Add(x): in every
+// linearization x is a member, so Delete must return true and Add false.  The history, projected onto the small
+// universe (restriction to a sub-universe commutes with every set operation), goes to the Lean checker as a `lin`
+// line and to the Go Wing-Gong oracle.  kind: "del" or "add".
+func (w *world) overlap(kind string, n int) string {
+	if n < 10 || n > 60000 || (kind != "del" && kind != "add") {
+		return "bad-op"
+	}
+	const x = E(1)
+	seen := 0
+	for attempt := 0; attempt < 6; attempt++ {
+		old := make([]E, 0, n+2)
+		old = append(old, x, E(3))
+		for i := 0; i < n; i++ {
+			old = append(old, E(100+i))
+		}
+		s := ds.NewSet(old...)
+		// the new contents: other fillers, the small elements 2 and x, x last
+		nw := make([]E, 0, n+2)
+		for i := 0; i < n; i++ {
+			nw = append(nw, E(200+i))
+		}
+		nw = append(nw, E(2), x)
+		arg := ds.NewSet(nw...)
+		var seq atomic.Int64
+		calls := make([]hcall, 2)
+		var sawTransient atomic.Bool
+		var replaceDone atomic.Bool
+		done := make(chan struct{}, 2)
+		failed := make(chan string, 2)
+		guard := func(f func()) {
+			defer func() {
+				if e := recover(); e != nil {
+					failed <- fmt.Sprint(e)
+				}
+				done <- struct{}{}
+			}()
+			f()
+		}
+		go guard(func() {
+			inv := seq.Add(1)
+			rm := s.Replace(arg)
+			ret := seq.Add(1)
+			replaceDone.Store(true)
+			var small []E
+			for _, e := range rm.ToSlice() {
+				if e < universe {
+					small = append(small, e)
+				}
+			}
+			calls[0] = hcall{inv, ret, fmt.Sprintf("replace;%s;%s", commaList([]E{2, x}), commaList(small))}
+		})
+		go guard(func() {
+			for !replaceDone.Load() {
+				if s.Size() < n/2 {
+					sawTransient.Store(true)
+
+					break
+				}
+			}
+			inv := seq.Add(1)
+			var res bool
+			if kind == "del" {
+				res = s.Delete(x)
+			} else {
+				res = s.Add(x)
+			}
+			calls[1] = hcall{inv, seq.Add(1), fmt.Sprintf("%s;%d;%v", kind, x, res)}
+		})
+		timeout := time.After(watchdog)
+		for i := 0; i < 2; i++ {
+			select {
+			case <-done:
+			case <-timeout:
+				w.r.Fail("deadlock", fmt.Sprintf("overlap %s: %d of 2 calls returned within %v", kind, i, watchdog),
+					map[string]string{"api": "Set", "oracle": "deadlock", "schedule": "single-overlapping-replace"})
+				hangs++
+
+				return "hung"
+			}
+		}
+		select {
+		case msg := <-failed:
+			w.r.Fail("panic", fmt.Sprintf("overlap %s: %s", kind, msg), map[string]string{"api": "Set", "oracle": "panic", "schedule": "single-overlapping-replace"})
+
+			return "done"
+		default:
+		}
+		if !sawTransient.Load() {
+			w.r.Count("overlap:" + kind + ":window-missed")
+
+			continue
+		}
+		seen++
+		w.r.Count("overlap:" + kind + ":inside-replace")
+		// the history over the small universe; the final Has sweep reads the real set
+		w.historyNoQuiesce([]E{x, 3}, s, calls, &seq)
+		if seen >= 2 {
+			break
+		}
+	}
+
+	return "done"
+}
+
+// historyNoQuiesce is history without the `quiesce` line (the set of the overlap scenario has tens of thousands of elements
+// outside the small universe).
+func (w *world) historyNoQuiesce(init []E, s ds.Set[E], calls []hcall, seq *atomic.Int64) {
+	n := len(pendingLines)
+	w.history(init, s, calls, seq)
+	kept := pendingLines[:n]
+	for _, l := range pendingLines[n:] {
+		if !strings.HasPrefix(l, "quiesce ") {
+			kept = append(kept, l)
+		}
+	}
+	pendingLines = kept
+}
+
 // history queues the `lin` line of a recorded history (completed calls + a final Has sweep at quiescence).
 func (w *world) history(init []E, s ds.Set[E], calls []hcall, seq *atomic.Int64) {
 	toks := make([]string, 0, len(calls)+universe)
@@ -714,6 +836,9 @@ func runConcurrent(r *hx.Run) {
 	}
 	for i := 0; i < forcedN; i++ {
 		ops = append(ops, fmt.Sprintf("mforced aba %d", 300), fmt.Sprintf("mforced clone %d", 1000+200*i), fmt.Sprintf("mforced foreach %d", 1000+200*i), fmt.Sprintf("mforced foreachrev %d", 1000+200*i))
+	}
+	for i := 0; i < forcedN; i++ {
+		ops = append(ops, fmt.Sprintf("overlap del %d", 20000+5000*(i%5)), fmt.Sprintf("overlap add %d", 20000+5000*(i%5)))
 	}
 	runCase(r, 0, ops)
 	ops = nil
